@@ -4,6 +4,7 @@ import Mathlib.Data.List.Perm.Basic
 import PolyVerif.Model.Transform
 import PolyVerif.Spec.Nucleotide
 import PolyVerif.Lemmas.Expansion
+import PolyVerif.Gen.IupacGuard
 /-
 C11 — Reverse complement and IUPAC expansion obey nucleotide-code semantics.
 
@@ -288,6 +289,24 @@ theorem variants_pass_judge {s : Str} (h : Iupac s) {vs : List Str} (hv : allVar
   rw [hv] at hv'
   cases hv'
   exact (isExpansion_iff s vs).2 ⟨hnd, hw⟩
+
+/-! ### the position of the overflow guard, observed on the running code -/
+
+/-- The extractor calls the real `AllVariantsIUPAC` on inputs over N, B, R whose numbers of readings
+(`Spec.readingCount`, the independent count) lie just above MaxInt32 and far above, and on the cheap
+`N^10`; `Gen.guardProbes` records refused (0) / accepted (1) / no answer (2).  Decided here on the
+regenerated table: the observations agree with the model's guard `maxInt32` — every refused input
+has more than `maxInt32` readings, every accepted one at most `maxInt32`, every probe got an answer —
+and the input with exactly `maxInt32 + 1 = 2^31` readings (N^15 R) is among the refused ones, so the
+guard is not above `maxInt32`.  (That it is not BELOW is observed by the sampled cases of the
+correspondence: N^11, 2·4^11, N^12 must not be refused.) -/
+theorem guard_probes_consistent :
+    (∀ p ∈ Gen.guardProbes,
+      (p.2 = 0 → maxInt32 < readingCount (p.1.map Char.ofNat)) ∧
+      (p.2 = 1 → readingCount (p.1.map Char.ofNat) ≤ maxInt32) ∧ p.2 ≠ 2) ∧
+    (∃ p ∈ Gen.guardProbes, p.2 = 0 ∧ readingCount (p.1.map Char.ofNat) = maxInt32 + 1) ∧
+    (∃ p ∈ Gen.guardProbes, p.2 = 1 ∧ 1000000 ≤ readingCount (p.1.map Char.ofNat)) := by
+  decide
 
 def acgt : List Char := ['A', 'C', 'G', 'T']
 
